@@ -171,16 +171,17 @@ def printed(res, tag):
     from . import tlaval
     vals = []
     text = res.out
-    needle = '<<"' + tag + '"'
+    # long values are pretty-printed over several lines ("<< \"TAG\",\n ...")
+    needle = re.compile(r'<<\s*"' + re.escape(tag) + '"')
     pos = 0
     while True:
-        idx = text.find(needle, pos)
-        if idx < 0:
+        match = needle.search(text, pos)
+        if not match:
             break
-        parser = tlaval._Parser(text, idx)
+        parser = tlaval._Parser(text, match.start())
         try:
             vals.append(parser.value())
             pos = parser.pos
         except tlaval.TlaParseError:
-            pos = idx + len(needle)
+            pos = match.end()
     return vals
